@@ -221,7 +221,8 @@ def dispatch_parts():
               requires='!old(self).transport@.failed, // @core',
               ensures=WRAP_FRAME + '''
                 final(self).transport@.sent == old(self).transport@.sent && final(self).transport@.closed == old(self).transport@.closed, // @core
-                r matches Poll::Ready(Some(Ok(()))) ==> final(self).transport@.ready && !final(self).transport@.failed, // @C14
+                // C14: Ready means a write is allowed now; C09: a failure reported while readying is never swallowed
+                r matches Poll::Ready(Some(Ok(()))) ==> final(self).transport@.ready && !final(self).transport@.failed, // @C14,C09
                 r matches Poll::Ready(Some(Err(e))) ==> final(self).transport@.failed && (e is Ready || e is Flush), // @C09
                 !(r matches Poll::Ready(None)), // @core
                 r is Pending ==> !final(self).transport@.failed && (final(self).transport@.flush_reg || final(self).transport@.ready_reg), // @C02,C14
@@ -315,9 +316,9 @@ def dispatch_parts():
                       proof {
                           if let ClientMessage::Request(m) = g_msg {
                               if self.transport@.sent.len() == old(self).transport@.sent.len() + 1 {
-                                  assert(self.in_flight_requests@ =~= old(self).in_flight_requests@.insert(m.id, CEntry { ctx: m.context, chan: g_chan }));
+                                  assert(self.in_flight_requests@ =~= old(self).in_flight_requests@.insert(m.id, CEntry { ctx: m.context, chan: g_chan })); // @C01,C07,C18
                               } else {
-                                  assert(self.in_flight_requests@ =~= old(self).in_flight_requests@);
+                                  assert(self.in_flight_requests@ =~= old(self).in_flight_requests@); // @C09
                               }
                           }
                       }
@@ -449,7 +450,7 @@ ACCESSOR_GUARDS = [
 
 
 def unit():
-    return Unit('client', prelude=['base.rs', 'time.rs', 'delay_queue.rs', 'oneshot_tx.rs', 'transport.rs', 'server_error.rs', 'client_queues.rs', 'cancellations.rs', 'client_guard.rs'],
+    return Unit('client', prelude=['base.rs', 'time.rs', 'delay_queue.rs', 'oneshot_tx.rs', 'trace_models.rs', 'transport.rs', 'server_error.rs', 'client_queues.rs', 'cancellations.rs', 'client_guard.rs'],
                 parts=client_table.parts() + dispatch_parts() + guard_parts(), rules=RULES,
                 fx_fns=client_table.FX_CALLS + [r'\.complete\(', r'self\.pump_read__closure\(', r'\.pump_read\(', r'\.pump_write\(', r'\.poll_write_request\(', r'\.shut_down_with_terminal_error\(', r'\.poll_expired\((?=cx, \|\|)'],
                 fx_prims=[r'response_completion\.send\(', r'self\.response\.close\(', r'self\.cancellation\.cancel\('], fx_type='Fx<Res>',
